@@ -190,6 +190,11 @@ def instrument(unit, scratch, gb, cover=False):
     contracted = set(re.findall(r'^Symbol\.*: contract::(\w+)$', symtxt, flags=re.M))
     auto = sorted(g for g in (undefined & contracted) if g not in repl and g not in enf)
     repl += auto
+    # a listed callee that the code no longer calls has no symbol at all (goto-cc drops unused declarations):
+    # --replace-call-with-contract on it aborts goto-instrument; nothing to replace, so leave it out
+    absent = [g for g in repl if not re.search(r'^Symbol\.*: ' + re.escape(g) + r'$', symtxt, flags=re.M)]
+    repl = [g for g in repl if g not in absent]
+    unit['_replace_absent'] = absent
     unit['_auto_replaced'] = auto
     unit['_replace_effective'] = repl
     for g in repl:
